@@ -1,5 +1,6 @@
 SPECIFICATION GenSpec
 CONSTANTS NId = 2 Maxes = {3, 12} Lens = {0, 2, 4, 11, 12} TraitsMax = 12 ValSz = 4 PtrSz = 8 Limit = 65535 CodeOrder = FALSE
+CONSTRAINT NoDerived
 VIEW Skel
 ACTION_CONSTRAINT Emit
 CHECK_DEADLOCK FALSE
